@@ -92,6 +92,20 @@ def refine_trees():
             out.append((f'refine-short:{iname}:{sname}', N('NT_RECURSIVE_SHORT', None, [a(), init(), step()])))
             for cname, cond in conds.items():
                 out.append((f'refine-full:{iname}:{sname}:{cname}', N('NT_RECURSIVE_FULL', None, [a(), init(), cond(), step()])))
+    # type deductions that need k rounds (a chain of k empty-set components fed from the right) or never reach a fixed point
+    # (every round wraps the type once more; a counter bounds the evaluation): accepted only with a CONFIRMED principal type
+    for k in (2, 3, 4, 5, 6, 7, 8):
+        names = [L('v%d' % j) for j in range(k)]
+        decl = N('NT_TUPLE_DECL', None, names)
+        init = N('NT_TUPLE', None, [E() for _ in range(k)])
+        step = N('NT_TUPLE', None, [L('v%d' % j) for j in range(1, k)] + [G('X1')])
+        out.append((f'refine-chain:{k}', N('NT_RECURSIVE_SHORT', None, [decl, init, step])))
+    wrap = lambda body: N('NT_RECURSIVE_FULL', None, [N('NT_TUPLE_DECL', None, [a(), L('k')]), N('NT_TUPLE', None, [E(), N('LIT_INTEGER', 0)]),
+                                                      N('LESSER', None, [L('k'), N('LIT_INTEGER', 10)]), N('NT_TUPLE', None, [body, N('PLUS', None, [L('k'), N('LIT_INTEGER', 1)])])])
+    out.append(('refine-unstable:enum', wrap(N('NT_ENUMERATION', None, [a()]))))
+    out.append(('refine-unstable:bool', wrap(N('BOOLEAN', None, [a()]))))
+    out.append(('refine-unstable:pair', wrap(N('NT_ENUMERATION', None, [N('NT_TUPLE', None, [a(), a()])]))))
+    out.append(('refine-unstable:union-enum', wrap(N('UNION', None, [a(), N('NT_ENUMERATION', None, [a()])]))))
     # function definitions: argument domain with its own binder + recursion in the body (reported argument list)
     dom1 = lambda: N('NT_DECLARATIVE_EXPR', None, [L('c'), G('X1'), eq(L('c'), L('p'))])
     dom2 = lambda: N('NT_DECLARATIVE_EXPR', None, [L('c'), N('BOOLEAN', None, [G('X1')]), N('IN', None, [L('p'), L('c')])])
